@@ -13,6 +13,7 @@ from vp import probe, specmodel as sm
 from vp import defaults
 from vp import reuse
 from vp import forms as argforms
+from vp import corners
 
 RULE = ('all 7^3 ordered triples of wavelength unit names (4 units + 3 aliases) and all 3^3 flux-unit triples, each on fresh '
         'random wavelength/flux vectors (enumerated completely, sharded); random spectra for Spectrum.to; temperatures '
@@ -20,7 +21,7 @@ RULE = ('all 7^3 ordered triples of wavelength unit names (4 units + 3 aliases) 
 ASSUMPTIONS = ["lentil's physical constants differ from CODATA by < 1e-6 relative (tolerance 1e-5 on absolute Planck values)"]
 EXHAUSTIVE = True
 PLAN = {'quick': {'gen': 4}, 'thorough': {'gen': 8, 'tests': 1, 'docs': 1}}
-REQUIRED_BUCKETS = ['defaults', 'reuse', 'forms', 'wave-triple', 'flux-triple', 'spectrum.to:density', 'spectrum.to:unitless', 'spectrum.to:flux-roundtrip', 'spectrum.to:multi', 'spectrum.sample:unit', 'blackbody:converted',
+REQUIRED_BUCKETS = ['defaults', 'corners', 'reuse', 'forms', 'wave-triple', 'flux-triple', 'spectrum.to:density', 'spectrum.to:unitless', 'spectrum.to:flux-roundtrip', 'spectrum.to:multi', 'spectrum.sample:unit', 'blackbody:converted',
                     'planck:radiance', 'planck:exitance', 'planck:forms', 'planck:argument-types', 'planck:rayleigh-jeans', 'spectrum.to:refused-tail', 'same-numbers:mixed-units', 'wien', 'stefan-boltzmann', 'vega', 'spectrum.to:edit-in-place', 'spectrum.bin:unit', 'unit:aliases', 'spectrum:narrow-columns', 'spectrum:narrow-columns:assigned', 'spectrum:narrow-columns:resampled', 'spectrum.to:blackbody-objects', 'spectrum.to:sub-range-integral', 'planck:temperature-vector-types']
 REQUIRED_ANCHORS = ['anchor:Spectrum.to', 'anchor:planck_radiance', 'anchor:planck_exitance', 'anchor:vegaflux',
                     'anchor:Photlam.to', 'anchor:Micron.to']
@@ -44,6 +45,7 @@ def workload(ctx, lentil):
     defaults.run(ctx, lentil, 'C14', 'wave:compose')
     reuse.run(ctx, lentil, 'C14', 'wave:compose')
     argforms.run(ctx, lentil, 'C14', 'wave:compose')
+    corners.run(ctx, lentil, 'C14', 'wave:compose')
     rng = ctx.rng
     R = lentil.radiometry
     k = 0
